@@ -22,6 +22,7 @@ type Obligation struct {
 	TimeS  float64
 	Output string
 	vc     *FuncVC
+	split  []string
 }
 
 // FuncVC collects the constraint system of one procedure.
@@ -44,12 +45,17 @@ type FuncVC struct {
 	unsupported []string
 	globals   map[*types.Var]string
 	specAx    []string
+	joins     map[string][]string // join pc -> incoming edge pcs
+	opaqueMono map[string]bool
+	homePkg    string          // package of the function being verified: its opaque preds are revealed
+	reveal     map[string]bool // explicitly revealed opaque preds
+	revealAll  bool
 }
 
 func NewFuncVC(w *World, name string) *FuncVC {
 	return &FuncVC{w: w, name: name, decls: map[string]string{}, funDecls: map[string]string{},
 		pcParents: map[string][]string{}, pcCons: map[string][]string{}, cards: map[string]bool{},
-		boxes: map[string]bool{}, globals: map[*types.Var]string{}}
+		boxes: map[string]bool{}, globals: map[*types.Var]string{}, joins: map[string][]string{}, opaqueMono: map[string]bool{}, reveal: map[string]bool{}}
 }
 
 func (vc *FuncVC) fresh() int { vc.counter++; return vc.counter }
@@ -181,7 +187,8 @@ func (vc *FuncVC) unsupportedf(format string, a ...interface{}) {
 }
 
 // ancestors returns the pcs reachable upward from pc (including itself), in deterministic order.
-func (vc *FuncVC) ancestors(pc string) []string {
+// choice maps a join pc to the single incoming edge to follow (path splitting); joins not in choice follow all parents.
+func (vc *FuncVC) ancestors(pc string, choice map[string]string) []string {
 	seen := map[string]bool{}
 	var order []string
 	var visit func(p string)
@@ -190,8 +197,12 @@ func (vc *FuncVC) ancestors(pc string) []string {
 			return
 		}
 		seen[p] = true
-		for _, q := range vc.pcParents[p] {
-			visit(q)
+		if c, ok := choice[p]; ok {
+			visit(c)
+		} else {
+			for _, q := range vc.pcParents[p] {
+				visit(q)
+			}
 		}
 		order = append(order, p)
 	}
@@ -199,34 +210,122 @@ func (vc *FuncVC) ancestors(pc string) []string {
 	return order
 }
 
-// Query builds the SMT-LIB text for one obligation.
-func (vc *FuncVC) Query(ob *Obligation) string {
-	var body strings.Builder
-	anc := vc.ancestors(ob.PC)
-	for _, p := range anc {
-		var cons []string
-		for _, q := range vc.pcParents[p] {
-			_ = q
+// pathChoices enumerates the ways to resolve every join above pc to one incoming edge (nil if more than limit).
+func (vc *FuncVC) pathChoices(pc string, limit int) []map[string]string {
+	var out []map[string]string
+	overflow := false
+	var rec func(choice map[string]string)
+	rec = func(choice map[string]string) {
+		if overflow {
+			return
 		}
-		cons = append(cons, vc.pcCons[p]...)
-		if len(cons) == 0 {
-			continue
-		}
-		for _, c := range cons {
-			if p == "pc!true" {
-				fmt.Fprintf(&body, "(assert %s)\n", c)
-			} else {
-				fmt.Fprintf(&body, "(assert (=> %s %s))\n", p, c)
+		// first unresolved join among the ancestors under the current choice
+		var j string
+		for _, p := range vc.ancestors(pc, choice) {
+			if _, isJoin := vc.joins[p]; isJoin {
+				if _, done := choice[p]; !done {
+					j = p
+				}
 			}
+		}
+		// ancestors() lists parents before children, so the last unresolved join found is the one closest to pc
+		if j == "" {
+			c := map[string]string{}
+			for k, v := range choice {
+				c[k] = v
+			}
+			out = append(out, c)
+			if len(out) > limit {
+				overflow = true
+			}
+			return
+		}
+		for _, e := range vc.joins[j] {
+			choice[j] = e
+			rec(choice)
+		}
+		delete(choice, j)
+	}
+	rec(map[string]string{})
+	if overflow || len(out) <= 1 {
+		return nil
+	}
+	return out
+}
+
+// Query builds the SMT-LIB text for one obligation.
+func (vc *FuncVC) Query(ob *Obligation) string { return vc.QueryChoice(ob, nil) }
+
+func (vc *FuncVC) QueryChoice(ob *Obligation, choice map[string]string) string {
+	return vc.QueryGoal(ob, choice, ob.Goal)
+}
+
+// splitConj flattens a goal of the form (and a b ...) into its conjuncts (also under let-free nesting).
+func splitConj(goal string) []string {
+	g := strings.TrimSpace(goal)
+	if !strings.HasPrefix(g, "(and ") {
+		return []string{g}
+	}
+	body := g[5 : len(g)-1]
+	var parts []string
+	depth, start := 0, -1
+	for i := 0; i < len(body); i++ {
+		c := body[i]
+		switch {
+		case c == '(':
+			if depth == 0 && start < 0 {
+				start = i
+			}
+			depth++
+		case c == ')':
+			depth--
+			if depth == 0 {
+				parts = append(parts, body[start:i+1])
+				start = -1
+			}
+		case c == ' ' || c == '\n':
+			if depth == 0 && start >= 0 {
+				parts = append(parts, body[start:i])
+				start = -1
+			}
+		default:
+			if depth == 0 && start < 0 {
+				start = i
+			}
+		}
+	}
+	if start >= 0 {
+		parts = append(parts, body[start:])
+	}
+	var out []string
+	for _, p := range parts {
+		out = append(out, splitConj(p)...)
+	}
+	return out
+}
+
+func (vc *FuncVC) QueryGoal(ob *Obligation, choice map[string]string, goal string) string {
+	var body strings.Builder
+	anc := vc.ancestors(ob.PC, choice)
+	for _, p := range anc {
+		if parents, isJoin := vc.joins[p]; isJoin {
+			if c, ok := choice[p]; ok {
+				fmt.Fprintf(&body, "(assert (=> %s %s))\n", p, c)
+			} else {
+				fmt.Fprintf(&body, "(assert (=> %s (or %s)))\n", p, strings.Join(parents, " "))
+			}
+		}
+		for _, c := range vc.pcCons[p] {
+			fmt.Fprintf(&body, "(assert (=> %s %s))\n", p, c)
 		}
 	}
 	if ob.PC != "pc!true" {
 		fmt.Fprintf(&body, "(assert %s)\n", ob.PC)
 	}
 	if ob.Cover {
-		fmt.Fprintf(&body, "(assert %s)\n", ob.Goal)
+		fmt.Fprintf(&body, "(assert %s)\n", goal)
 	} else {
-		fmt.Fprintf(&body, "(assert (not %s))\n", ob.Goal)
+		fmt.Fprintf(&body, "(assert (not %s))\n", goal)
 	}
 	// Only declare constants that occur in the body (keeps queries small)
 	text := body.String()
